@@ -168,7 +168,7 @@ def prepare(verbose=True):
 # ---------------------------------------------------------------------------------------- queries
 class Query:
     def __init__(self, name, harness, entry, defines=None, unwind=8, unwindset=None, lib="call", ub=True, frozen=False, timeout=None,
-                 cbmc_flags=None, expose=None, tiers=("quick", "thorough"), note="", solver=None, objbits=12, leak=False, known=None, inline=None, cc_defs=None):
+                 cbmc_flags=None, expose=None, tiers=("quick", "thorough"), note="", solver=None, objbits=12, leak=False, known=None, inline=None, cc_defs=None, stubs=None):
         self.name, self.harness, self.entry = name, harness, entry
         self.defines = defines or {}
         self.unwind, self.unwindset = unwind, unwindset or {}
@@ -179,6 +179,7 @@ class Query:
         self.known = known              # key into known_findings.txt
         self.inline = inline
         self.cc_defs = cc_defs or []
+        self.stubs = stubs or []          # library functions (mangled names) whose definition is replaced by one the harness provides under the same name
 
 
 def limit_mem(gb):
@@ -197,6 +198,19 @@ def build_query(q, cache, ll2c, qdir, witness):
     inl = ["-mllvm", f"-inline-threshold={q.inline}"] if q.inline else []
     sh(["clang++-14"] + LIBFLAGS + inl + ["-fno-access-control", f"-I{HARN}", "-S", "-emit-llvm", os.path.join(HARN, q.harness), "-o", hll] + defs)
     lib = os.path.join(cache, f"lib_{q.lib}.ll")
+    if q.stubs:
+        # the harness defines a function under the same (mangled) name; the library's definition is made weak and taken out of its
+        # comdat so that llvm-link resolves every call to the harness definition
+        txt = open(lib).read()
+        for sym in q.stubs:
+            pat = re.compile(r"^define (?:linkonce_odr |weak_odr |weak |internal |dso_local |hidden |noundef |zeroext |signext |nonnull )*", re.M)
+            m = re.search(r"^define [^\n]*@" + re.escape(sym) + r"\([^\n]*$", txt, re.M)
+            if not m: raise RuntimeError(f"stub: definition of {sym} not found")
+            line = m.group(0)
+            newline = re.sub(r"^define (linkonce_odr |weak_odr |weak |internal )?", "define weak ", line)
+            newline = re.sub(r" comdat(\(\$[^)]*\))?", "", newline)
+            txt = txt.replace(line, newline)
+        lib = os.path.join(qdir, f"libs.{tag}.ll"); open(lib, "w").write(txt)
     if q.expose:
         txt = open(lib).read()
         for sym in q.expose:
@@ -231,10 +245,13 @@ def loop_bounds(q, gb, cfile):
         m = re.search(r"/\*LOOP sf=(\S+) file=(\S+) line=(\d+) depth=(\d+)\*/", lines[int(ln) - 1]) if 0 < int(ln) <= len(lines) else None
         sf = m.group(1) if m else ""
         info.append((lid, sf))
-        for pat, b in q.unwindset.items():
-            if pat.endswith(".recursion"): continue
-            if (sf and re.fullmatch(pat, sf)) or re.search(pat, lid):
-                sets.append(f"{lid}:{b}"); break
+        hit = None
+        for pat, b in q.unwindset.items():          # source-function tags take precedence over cbmc loop ids
+            if not pat.endswith(".recursion") and sf and re.fullmatch(pat, sf): hit = b; break
+        if hit is None:
+            for pat, b in q.unwindset.items():
+                if not pat.endswith(".recursion") and re.search(pat, lid): hit = b; break
+        if hit is not None: sets.append(f"{lid}:{hit}")
     ctext = "\n".join(lines)
     for pat, b in q.unwindset.items():
         if pat.endswith(".recursion") and re.search(r"\b" + re.escape(pat[:-10]) + r"\(", ctext): sets.append(f"{pat[:-10]}:{b}")
